@@ -62,6 +62,11 @@ CHECKS = {
         text="TLA+ model of the overlay bowl's commit sub-phases over an abstract POSIX file system, with work lists derived from (old,new) as differ + patcher derive them and every order of the transposition map loops / unstable ghost sort, model-checked over all build pairs of a small path universe (62 500 pairs quick, 1.56 M thorough). The same universe is materialised and run through the real differ -> patcher -> overlay bowl with repeated commits (the whole universe in the thorough tier): TLC runs the commit model on each pair, every real outcome must be a terminal state of the model (conformance) and must be the new build with nothing left over (verdict), and the old build must be untouched right before Commit; real-scale generated scenarios (renames, swaps, chains, duplications, patched+renamed, grow/shrink, deleted dirs, symlink changes) are committed repeatedly and checked the same way.",
         note="POSIX semantics of this sandbox; case-insensitive file systems not exercised; pairs in which a path changes kind are known findings (known_findings.json) matched by (kind transitions, failure mode).",
         technique="TLA+ model checking (TLC) + real executions of the model's own universe validated against the TLA+ commit model and property"),
+    "C04": dict(
+        level="model_checking", ref="DESIGN.md §4 C04",
+        text="TLA+ model of the signer's scanner (one-block buffer + split function) fed by a reader with arbitrarily short reads and of the read-back arithmetic (hash slots, short sizes, per-file groups), model-checked for all file sizes 0..10 units: emitted blocks are [BS]^k ++ tail, one empty block per empty file, and the read-back inverts it. Generated builds x every compression setting of the signature stream x short-reading source pools: the diff-time signature is read back by the real ReadSignature and compared block by block with the real stand-alone signer and an independent recomputation (TLC evaluates the rolling checksum of tiny files itself); ComputeHashInfo must partition the list; a pristine copy must validate with no wound and pass fail-fast validation.",
+        note="MD5 digests compared byte-wise; the independent recomputation is the harness' own rolling-checksum + crypto/md5.",
+        technique="TLA+ model checking (TLC) + trace validation of real signatures and validations against the TLA+ block arithmetic"),
 }
 
 NOT_YET = "check not built yet in this round (planned: DESIGN.md §4); not a claim that the technique cannot apply"
